@@ -154,9 +154,7 @@ static void one_execution( const Case& c, const std::vector< int >& pre, bool ve
    In in( buf.p, buf.p + buf.n, "src", g_ib, g_il, g_ic );
    check_positions = S.check_positions;
    monitor_apply_mode = !S.check_scopes;
-#ifdef VERIF_COV
-   monitor_frames = false;
-#endif
+
    verif_c03 = 0;
    Real r;
    fault_armed = 1;
@@ -175,7 +173,7 @@ static void one_execution( const Case& c, const std::vector< int >& pre, bool ve
       top_A = 1;
       L.reset();
       try {
-         const bool ok = ( c.cfg.fam == 1 ) ? p::coverage< node< 0 >, act_apply >( in, cov_result ) : p::coverage< node< 0 >, act_bool >( in, cov_result );
+         const bool ok = ( c.cfg.fam == 1 ) ? p::coverage< node< 0 >, act_apply, mon >( in, cov_result ) : p::coverage< node< 0 >, act_bool, mon >( in, cov_result );
          r.kind = ok ? Real::OK : Real::FAILED;
          r.pos = int( in.current() - g_begin );
       }
@@ -258,6 +256,13 @@ static void one_execution( const Case& c, const std::vector< int >& pre, bool ve
          report( exc ? S.exc_prop : S.result_prop, S.check_positions ? "match result differs from the reference (rule outcome depends on a position counter): " + cls : cls, c, j );
    }
 #ifdef VERIF_COV
+   // ---- the control wrapped by state_control (what coverage<> is built on) must still see a balanced protocol
+   {
+      bool defect = false;
+      const std::string h = check_hooks( true, defect );
+      if( !h.empty() ) report( "C08", "control wrapped by state_control: " + h, c );
+      if( defect ) report( "C08", "exception thrown by an action leaves the rule attempt without unwind", c );
+   }
    // ---- coverage counters (C08): start = success + failure + unwind for every rule and branch, equal to the reference's count of attempts
    if( !cov_threw.empty() ) report( "C08", "the coverage facility itself threw", c, cov_threw );
    for( const auto& e : cov_result ) {
